@@ -175,9 +175,60 @@ func c14AfterExit(c *mon.Ctx) c14Case {
 	return cs
 }
 
+// use-in-literal: the use() call that is running when the signal fires sits
+// INSIDE an expression - an element of a list or map literal, an index key on
+// either side of an assignment, a bare expression statement - and more
+// statements follow in the same block. The caller stops like after a plain
+// use() statement.
+func c14UseInLiteral(c *mon.Ctx) c14Case {
+	cs := c14Case{Stmts: map[string][]*gt.T{}, Srcs: map[string]string{}}
+	r := c.Sub("use-in-literal")
+	use := gt.Call("use", gt.Str("s1.p"))
+	var st *gt.T
+	switch r.Intn(6) {
+	case 0:
+		st = gt.Assign("=", gt.Ident("x"), gt.List(gt.Int(1), use))
+	case 1:
+		st = gt.Assign("=", gt.Ident("x"), gt.Map(gt.Str("k"), gt.List(use)))
+	case 2:
+		st = gt.Assign("=", gt.Index("w", use), gt.Int(1))
+	case 3:
+		st = gt.List(use, gt.Int(2))
+	case 4:
+		st = gt.Assign("=", gt.Ident("x"), gt.Index("w", use))
+	default:
+		st = gt.Assign("=", gt.Ident("x"), gt.Map(gt.Str("a"), gt.Int(1), gt.Str("b"), use))
+	}
+	body := []*gt.T{gt.Call("p", gt.Str("m0")), gt.Assign("=", gt.Ident("w"), gt.List(gt.Int(1), gt.Int(2))), st, gt.Call("p", gt.Str("m1")), gt.Assign("=", gt.Ident("y"), gt.Int(2)), gt.Call("p", gt.Str("m2"))}
+	switch r.Intn(3) {
+	case 0:
+		body = []*gt.T{gt.If(gt.Bool(true), body...), gt.Call("p", gt.Str("after-if"))}
+	case 1:
+		body = []*gt.T{gt.ForIn("zz", gt.List(gt.Int(1), gt.Int(2)), body...), gt.Call("p", gt.Str("after-loop"))}
+	}
+	cs.Stmts["main.p"] = body
+	cs.Stmts["s1.p"] = []*gt.T{gt.Call("p", gt.Str("s1")),
+		gt.For(gt.Assign("=", gt.Ident("i"), gt.Int(0)), gt.Bin("<", gt.Ident("i"), gt.Int(3)), gt.Assign("=", gt.Ident("i"), gt.Bin("+", gt.Ident("i"), gt.Int(1))), gt.Call("p", gt.Ident("i"))),
+		gt.Call("p", gt.Str("s1-end"))}
+	mn, md := 1, 0
+	for n, stl := range cs.Stmts {
+		stl = gt.ParenthesizeStmts(stl)
+		cs.Stmts[n] = stl
+		cs.Srcs[n] = gt.Print(stl, nil)
+		maxStmtNodes(stl, 0, &mn, &md)
+	}
+	cs.Grace = int64(2*mn + 8*md + 16)
+	return cs
+}
+
 func (c14) build(c *mon.Ctx, v2 bool) c14Case {
-	if !v2 && c.R.Intn(6) == 0 {
-		return c14AfterExit(c)
+	if !v2 {
+		switch c.R.Intn(9) {
+		case 0:
+			return c14AfterExit(c)
+		case 1:
+			return c14UseInLiteral(c)
+		}
 	}
 	cs := c14Case{V2: v2, Stmts: map[string][]*gt.T{}, Srcs: map[string]string{}}
 	names := []string{"main.p"}
